@@ -443,7 +443,7 @@ pub fn run(ctx: &Ctx) -> (Report, PropertyMeta) {
     realnet::cleanup_scratch();
 
     let total = report.evaluations;
-    health(&mut report, "staller-holding-while-others-connect", total, 300);
+    health(&mut report, "staller-holding-while-others-connect", total, 200);
 
     let meta = PropertyMeta {
         level: "fault_enumeration",
